@@ -108,7 +108,7 @@ fn run(cfg: &RunCfg) -> Report {
     let ns = cfg.nshards as u64;
     let sh = cfg.shard as u64;
     let small = cfg.is_small();
-    let per_len = if small { 1 } else { cfg.n(cfg.pick(2000, 40_000)) };
+    let per_len = if small { 1 } else { cfg.n(cfg.pick(2000, 100_000)) };
     if !small {
         wrap_histories(cfg, &mut rng, &mut rep);
     }
